@@ -48,7 +48,7 @@ func init() {
 	}
 	engineTable["C11"] = engineInfo{
 		Engine:      "C11",
-		Rule:        "case = generated program with 3-25 method bodies (top-level defs, module methods, instance methods of 0-3 classes; calls only to lower levels but in shuffled definition order so forward references are common; self and mutual recursion; locals initialised from calls; closures; if-expressions; list literals; 0-2 constants initialised from method calls; in 30% of programs 1-3 bodies carry a type error, in 30% a warning) x MethodCheckConcurrencyLimit in {2,3,8,100} x one schedule of the concurrent.Foreach tasks (preemption at every function entry and loop of types/checker, compiler, concurrent, diagnostic; statement level in checkMethodBodies, optimiseCalls, patchOptimisedCall, prepLocals, the concurrent.* containers and SyncDiagnosticList) x PRNG-controlled Go map iteration order. Oracle: against the same source checked at limit 1 without the scheduler - equal sorted diagnostic multiset, equal acceptance, and for accepted programs equal stdout and error of the compiled program run on the VM; no Go panic. Non-trivial: >= 3 tasks and >= 2 context switches; distinct: hash of (source, limit, schedule trace)",
+		Rule:        "case = generated program with 3-25 method bodies (top-level defs, module methods, instance methods of 0-3 classes; calls only to lower levels but in shuffled definition order so forward references are common; self and mutual recursion; locals initialised from calls; closures; if-expressions; list literals; 0-2 constants initialised from method calls; in 30% of programs 1-3 bodies carry a type error, in 30% a warning) x MethodCheckConcurrencyLimit in {2,3,8,100} x one schedule of the concurrent.Foreach tasks (preemption at every function entry and loop of types/checker, compiler, concurrent, diagnostic; statement level in checkMethodBodies, optimiseCalls, patchOptimisedCall, prepLocals, the concurrent.* containers and SyncDiagnosticList) x PRNG-controlled Go map iteration order. Oracle: against the same source checked at limit 1 without the scheduler - equal sorted diagnostic multiset, equal acceptance, and for accepted programs equal stdout and error of the compiled program run on the VM, and equal bytecode of every function in a normalised form (addresses dropped; method calls compared by target and argument count, whatever flavour of call instruction the build chose); no Go panic. Non-trivial: >= 3 tasks and >= 2 context switches; distinct: hash of (source, limit, schedule trace)",
 		Assumptions: append([]string{"data-race clause: only consequences of unsynchronised access that show at statement granularity are decided (lost append, check-then-act, publication before completion); the token scheduler serialises memory accesses, so memory-model level races are out of reach"}, commonAssumptions...),
 		Real:        realAll,
 		Stub:        stubAll,
